@@ -231,8 +231,8 @@ func genCase0(t *rapid.T) Case {
 		k := uint(rapid.IntRange(1, 20).Draw(t, "k"))
 		n := rapid.IntRange(1, 10).Draw(t, "n")
 		class := "polyline"
-		if rapid.IntRange(0, 29).Draw(t, "long") == 0 {
-			n, class = rapid.IntRange(60, 300).Draw(t, "nlong"), "polyline-long"
+		if rapid.IntRange(0, 9).Draw(t, "long") == 0 {
+			n, class = rapid.IntRange(60, 400).Draw(t, "nlong"), "polyline-long"
 		}
 		p := [][3]int64{pt(t, 1<<k, "p")}
 		for i := 0; i < n; i++ {
@@ -360,7 +360,24 @@ func prop(c Case) error {
 		for i := len(line) - stride; i >= 0; i -= stride {
 			rev = append(rev, line[i:i+stride]...)
 		}
-		return check("xy.DistanceFromPointToLineString(reversed)", xy.DistanceFromPointToLineString(layout, cc(0), rev), d2, tol, true)
+		if err := check("xy.DistanceFromPointToLineString(reversed)", xy.DistanceFromPointToLineString(layout, cc(0), rev), d2, tol, true); err != nil {
+			return err
+		}
+		// after the whole line, shorter and shorter beginnings of it (what an earlier,
+		// longer call leaves behind must not be measured with a later, shorter line)
+		for _, keep := range []int{len(P) - 2, (len(P)-1)*3/4 + 1, (len(P)-1)/2 + 1, 129, 2, 1} {
+			if keep < 1 || keep >= len(P)-1 {
+				continue
+			}
+			dk := exact.Dist2(e2(P[0]), e2(P[1]))
+			for i := 2; i <= keep; i++ {
+				dk = exact.MinRat(dk, exact.PointSegDist2(e2(P[0]), e2(P[i-1]), e2(P[i])))
+			}
+			if err := check(fmt.Sprintf("xy.DistanceFromPointToLineString(first %d of %d vertices, after the whole line)", keep, len(P)-1), xy.DistanceFromPointToLineString(layout, cc(0), line[:keep*stride]), dk, tol, true); err != nil {
+				return err
+			}
+		}
+		return nil
 	case "seg-seg2":
 		tol := 1e-9 * scaleOf(c, 2)
 		d2 := exact.SegSegDist2(e2(P[0]), e2(P[1]), e2(P[2]), e2(P[3]))
